@@ -6,6 +6,7 @@ package sftp
 
 //@ func toFileMode
 //@   property C17
+//@   function
 //@   ensures uint32(result) & 0777 == mode & 0777
 //@   ensures mode & 0170000 == 0040000 ==> result & os.ModeType == os.ModeDir
 //@   ensures mode & 0170000 == 0100000 ==> result & os.ModeType == 0
@@ -21,6 +22,7 @@ package sftp
 
 //@ func isRegular
 //@   property C17
+//@   function
 //@   ensures result <==> (mode & 0170000 == 0100000)
 
 // ---------------------------------------------------------------------------
@@ -113,6 +115,7 @@ package sftp
 
 //@ func fromFileMode
 //@   property C17
+//@   function
 //@   ensures result & 0777 == uint32(mode) & 0777
 //@   ensures mode & os.ModeType == os.ModeDir ==> result & 0170000 == 0040000
 //@   ensures mode & os.ModeType == 0 ==> result & 0170000 == 0100000
@@ -128,6 +131,7 @@ package sftp
 
 //@ func toChmodPerm
 //@   property C17
+//@   function
 //@   ensures perm & 0777 == uint32(m) & 0777
 //@   ensures (perm & 04000 != 0) <==> (m & os.ModeSetuid != 0 || uint32(m) & 04000 != 0)
 //@   ensures (perm & 02000 != 0) <==> (m & os.ModeSetgid != 0 || uint32(m) & 02000 != 0)
